@@ -789,7 +789,7 @@ def int_rem_euclid(E, st, frame, b, t, c, args):
     oblig(E, frame, b, t, ok, '%s: divisor may be zero (or MIN / -1): %s' % (c['item'], show_val(bb)))
     if c['item'] == 'rem_euclid':
         m = max(abs(bb[1]), abs(bb[2]))
-        return mk_int(0, max(m - 1, 0))
+        return E.reg(mk_int(0, max(m - 1, 0), 0, A.mkterm('rem_euclid', a[4], bb[4]) or T('o', E.site(frame, b, 're'))))
     return mk_int(lo_t, hi_t)
 
 
